@@ -13,7 +13,7 @@ RULE = ("case = one generated program with recursive strata (1-3 mutually recurs
         "oracle (a) delta trace: with the optimisations off the reported (tuple, iteration) pairs are exactly {(t, k) : t in D_k} - "
         "every naive tuple is found, in the round the naive computation finds it, no tuple is reported twice, and the loop stops in "
         "the round in which the naive computation reaches its fixpoint; in the default pipeline (auxiliary relations may delay a "
-        "tuple) every naive tuple is found exactly once and never earlier than its naive round. oracle (b) derivation "
+        "tuple, a dropped tautological clause may split the stratum and bring it forward) every naive tuple is found exactly once. oracle (b) derivation "
         "counts (guarded hook SOUFFLE_VERIF_DERIV_LOG counting evaluations of the head insert per target relation and "
         "iteration; AST optimisations and the If / IfExists conversions off): in iteration k the rule versions of R together reach the "
         "head exactly N(S_k) - N(S_k - D_k) times, N(X) = number of body-tuple combinations over X whose head is not yet known - "
@@ -176,10 +176,10 @@ def worker(arg):
                     viols.append((K("unsound"), "%s: tuples found that the naive fixpoint does not contain: %s\n%s" % (rn, extra[:4], text)))
                 # with the optimisations off the rounds coincide exactly; the default pipeline may route a rule through an auxiliary
                 # relation of the same stratum (body partitioning, existential reduction), which can only delay a tuple
-                if with_counts:
-                    wrong = [(t, got[t][0], want[t]) for t in want if t in got and got[t][0] != want[t]]
-                else:
-                    wrong = [(t, got[t][0], want[t]) for t in want if t in got and got[t][0] < want[t]]
+                # with the optimisations off the rounds coincide exactly. The default pipeline may route a rule through an auxiliary
+                # relation of the same stratum (later) or drop a tautological clause and thereby split the stratum (earlier), so there
+                # only "every naive tuple exactly once" is demanded
+                wrong = [(t, got[t][0], want[t]) for t in want if t in got and got[t][0] != want[t]] if with_counts else []
                 if wrong:
                     viols.append((K("wrong-iteration"), "%s: tuple %s first found in iteration %d, the naive computation finds it in round %d\n%s" % (
                         rn, wrong[0][0], wrong[0][1], wrong[0][2], text)))
